@@ -101,7 +101,8 @@ def plan_cfgs(rng, md, n):
     rng.shuffle(lns)
     for k in range(n):
         cfgs.append({'mode': modes[k % 3], 'ln': lns[k % len(lns)], 'fmt': FORMATS[rng.randrange(3)],
-                     'scaled': rng.random() < .5, 'jac': rng.choice(JAC_TYPES)})
+                     'scaled': rng.random() < .5, 'jac': rng.choice(JAC_TYPES),
+                     'coloring': rng.choice([None, None, 'direct', 'subst'])})
     return cfgs
 
 
@@ -139,7 +140,7 @@ def observe_case(seed, opts, ncfg, want_runs=True, want_totals=True):
                     p1 = ob.build(so.without_vois(m), {'mode': c['mode']})
                     p1.run_model()
                     full = so.observe_full(p1, m, ref, rtol)
-                    p2 = ob.build(m, {'mode': c['mode']})
+                    p2 = ob.build(m, {'mode': c['mode'], 'coloring': c.get('coloring')})
                     p2.run_model()
                     blocks = so.observe_blocks(p2, m, ref, c['scaled'], c['fmt'], rtol)
                 except AnalysisError:
